@@ -520,7 +520,7 @@ def rule_view_limit_is_own_geometry(prog, fixture=False):
     r = RuleResult("R-C17-5", "each surface view is limited to the sector count of the geometry it is given: the "
                    "`total` argument of FileView is <its geometry argument>.total_sectors() (not the count of the "
                    "whole two-sided image, which would let reads run on into the other side's or the next slot's data)",
-                   floor=0 if fixture else 4)
+                   floor=0 if fixture else 2)
     for fn in prog.functions.values():
         for n in fn.walk():
             if n.get("k") not in ("CXXConstructExpr", "CXXTemporaryObjectExpr") or not notpl(n.get("cls") or "").endswith("FileView") \
